@@ -855,6 +855,12 @@ func runC27(c c27Case, r *ev.Rec) error {
 				// label sets (after dropping the name), not each step
 				sig = "c27-range-same-labelset-across-steps"
 			}
+			if cl == "vector cannot contain metrics with the same labelset" && strings.Contains(c.Expr, "histogram_quantiles(") {
+				// listed finding: histogram_quantiles with a repeated quantile value yields several
+				// elements with one label set; the range evaluation rejects them, the instant
+				// evaluation hands them on (e.g. to an aggregation) without complaint
+				sig = "c27-histogram-quantiles-repeated-quantile-range-only-error"
+			}
 			msg := fmt.Sprintf("query %q (lookback %dms): the range query [%d,%d] step %d fails with %q but no step's instant query fails that way (instant errors: %v)", c.Expr, c.Eng.LookbackMs, c.Start, end, c.Step, rng.Err, firstInstErr)
 			if sig == "" && c27KnownAggParam(ast) {
 				sig = c27SigAggParam
